@@ -78,14 +78,32 @@ def cases(tier, inst):
             for t in trees_by_depth(XY_REP, 2):
                 if Q.depth(t) == 2:
                     yield ("xy", h, t, "rich")
+    # predicate-form rule (as in the repository's test_generate_drawers_predicate_form*): the head's arguments are
+    # sub-queries over predicate-form variables, the body conditions refer to those variables
+    for t in trees_by_depth(leaves_xy(), 1):
+        for quant in ("an", "infer"):
+            for kind in ("entity", "entity0"):
+                if quant == "infer" and kind == "entity0" and t[0] != "cmp":
+                    continue
+                yield ("pformrule", (quant, kind), t, "rich")
     # nested constructor term: matches Made2 instances already in the registry, reused as field values
     for pre in ((), ((0, 0),), ((0, 0), (1, 2)), ((0, 0), (0, 0)), ((3, 1), (2, 2), (0, 3))):
         for t in (None, XY_REP[0], XY_REP[2]):
             yield ("nested", pre, t, "rich")
 
 
+def pformrule_query(case):
+    _, (quant, kind), tree, w = case
+    hx = ("sub", ("Q", "an", kind, ("bound", "x", ("pform", "Item", "DA", (), ())), (), ()))
+    hy = ("sub", ("Q", "an", kind, ("bound", "y", ("pform", "Item", "DB", (), ())), (), ()))
+    return ("Q", quant, kind, ("new", "Made", (), (("a", hx), ("b", hy))), (tree,), ())
+
+
 def query_of(case):
     vk, head, tree, w = case
+    if vk == "pformrule":
+        # what the rule means (used by the reference semantics): one Made(a=x, b=y) per (x, y) satisfying the body
+        return ("Q", "infer", "entity", ("new", "Made", (), (("a", X), ("b", Y))), (tree,), VARS3[:2])
     if vk == "nested":
         head = ("new", "Made", (), (("a", ("new", "Made2", (), (("a", X), ("b", Y)))), ("b", X)))
         vars_ = VARS3[:2]
@@ -108,7 +126,7 @@ def run_case(case, inst):
         if case[0] == "nested":
             pre = [W.Made2(a=world["DA"][i], b=world["DB"][j]) for i, j in case[1]]
         try:
-            obj, b = Q.build(q, world, inst, mode="rule")
+            obj, b = Q.build(pformrule_query(case) if case[0] == "pformrule" else q, world, inst, mode="rule")
             got = [(r,) for r in obj.evaluate()]
         except Exception as e:
             got = exc_obs(e)
@@ -141,7 +159,7 @@ def run_case(case, inst):
     tree = case[2]
     res = {"ok": d is None, "nontrivial": 0 < nsol < total, "transitions": 1 + (0 if is_exc(got) else len(got)),
            "tags": [f"vars={case[0]}", f"root={root_kind(tree) if tree else 'none'}",
-                    "positional" if (case[0] != "nested" and case[1][2]) else "keyword",
+                    "positional" if (case[0] not in ("nested", "pformrule") and case[1][2]) else "keyword",
                     "world=" + (case[3] if isinstance(case[3], str) else "tiny")],
            "outcome": str(nsol)}
     if d is not None:
@@ -154,5 +172,6 @@ def describe(case, inst):
     pre = ""
     if case[0] == "nested":
         pre = "\n" + "\n".join(f"Made2(a=DA[{i}], b=DB[{j}])   # registered beforehand" for i, j in case[1])
-    return (Q.up_world(world_of(case), inst) + pre + "\n" + Q.up_query(query_of(case), inst, mode="rule")
+    return (Q.up_world(world_of(case), inst) + pre + "\n"
+            + Q.up_query(pformrule_query(case) if case[0] == "pformrule" else query_of(case), inst, mode="rule")
             + "\ninstances = list(q.evaluate())   # expected: one instance per satisfying assignment, built from it")
